@@ -5,6 +5,7 @@ package ast
 import (
 	"bytes"
 	"fmt"
+	"sort"
 	"strconv"
 
 	"github.com/robfig/soy/data"
@@ -753,11 +754,11 @@ func (n *MapLiteralNode) String() string {
 	}
 	var expr = "["
 	var first = true
-	for k, v := range n.Items {
+	for _, k := range n.sortedKeys() {
 		if !first {
 			expr += ", "
 		}
-		expr += fmt.Sprintf("'%s': %s", k, v.String())
+		expr += fmt.Sprintf("'%s': %s", k, n.Items[k].String())
 		first = false
 	}
 	return expr + "]"
@@ -765,10 +766,21 @@ func (n *MapLiteralNode) String() string {
 
 func (n *MapLiteralNode) Children() []Node {
 	var nodes []Node
-	for _, v := range n.Items {
-		nodes = append(nodes, v)
+	for _, k := range n.sortedKeys() {
+		nodes = append(nodes, n.Items[k])
 	}
 	return nodes
+}
+
+// sortedKeys returns the keys of the literal in sorted order, so that printing
+// and traversal do not depend on map iteration order.
+func (n *MapLiteralNode) sortedKeys() []string {
+	var keys = make([]string, 0, len(n.Items))
+	for k := range n.Items {
+		keys = append(keys, k)
+	}
+	sort.Strings(keys)
+	return keys
 }
 
 // Data References ----------
